@@ -14,14 +14,14 @@ def PTy.str : PTy → String
 /-- typing of conditions and loop guards: literals have their type; an attribute access has the declared
     type of the attribute it resolves to (without array index); arithmetic on numbers gives a number; ordering
     comparisons compare two numbers or two strings; `==` / `!=` compare two numbers or two booleans;
-    `And` / `Or` / `!` combine booleans; parentheses keep the type. -/
+    `And` / `Or` / `!` combine booleans; parentheses keep the type (of any operand, strings included). -/
 inductive ExprTy (env : Env) (vars : List (String × Ty)) : Expr → PTy → Prop
   | num (q : Rat) (f : Bool) : ExprTy env vars (.lit (.num q f)) .number
   | bool (b : Bool) : ExprTy env vars (.lit (.bool b)) .boolean
   | str (s : String) : ExprTy env vars (.lit (.str s)) .string
   | path (p : List String) (τ : PTy) : checkAccessExpr env vars p = [] →
       typeOfPath env vars p = some (.name τ.str) → ExprTy env vars (.path p) τ
-  | paren (e : Expr) (τ : PTy) : τ ≠ .string → ExprTy env vars e τ → ExprTy env vars (.paren e) τ
+  | paren (e : Expr) (τ : PTy) : ExprTy env vars e τ → ExprTy env vars (.paren e) τ
   | not (e : Expr) : ExprTy env vars e .boolean → ExprTy env vars (.not e) .boolean
   | arith (op : String) (l r : Expr) : op ∈ ["+", "-", "*", "/"] →
       ExprTy env vars l .number → ExprTy env vars r .number → ExprTy env vars (.bin op l r) .number
@@ -56,11 +56,13 @@ theorem exprTy_verdicts {env : Env} {vars : List (String × Ty)} {e : Expr} {τ 
     · rintro rfl; simp [exprIsNumber, ht, PTy.str]
     · rintro rfl; simp [exprIsBoolean, exprIsString, ht, PTy.str]
     · rintro rfl; simp [exprIsNumber, exprIsString, ht, PTy.str]
-  | paren e τ hs _ ih =>
+  | paren e τ _ ih =>
     refine ⟨by simpa [operandAccessErrs] using ih.access, fun h => by simpa [checkExpr] using ih.check h,
-      fun h => by simpa [exprIsNumber] using ih.number h, ?_, fun h => absurd h hs⟩
-    intro h
-    exact ⟨by simpa [exprIsBoolean] using (ih.boolean h).1, by simp [exprIsString]⟩
+      fun h => by simpa [exprIsNumber] using ih.number h, ?_, ?_⟩
+    · intro h
+      exact ⟨by simpa [exprIsBoolean] using (ih.boolean h).1, by simpa [exprIsString] using (ih.boolean h).2⟩
+    · intro h
+      exact ⟨by simpa [exprIsString] using (ih.string h).1, by simpa [exprIsNumber] using (ih.string h).2⟩
   | not e _ ih =>
     refine ⟨by simpa [operandAccessErrs] using ih.access, ?_, by simp, fun _ => ⟨rfl, by simp [exprIsString]⟩, by simp⟩
     intro _
